@@ -429,6 +429,61 @@ main(void)
                 ly_set_free(set, NULL);
                 free(expr);
             }
+        } else if (!strcmp(comp, "xpm") && (c.nf >= 3)) {
+            /* must decisions: parse without validation, add the default nodes, evaluate every must of every data node
+             * (explicit and default ones) with lyd_eval_xpath3(), then let lyd_validate_module() decide on the same data.
+             * output  M:<number of musts>:<number of false musts>:<evaluation errors>:<validation 0 accepted / 1 refused> */
+            int e = load(c.f[1], "-");
+
+            if (e && (e != 3)) {
+                printf("LOADERR%d", e);
+            } else {
+                char *txt = vunhex(c.f[2], NULL);
+                struct lyd_node *tree = NULL, *root, *node;
+                unsigned nm = 0, nfalse = 0, nerr = 0;
+
+                const struct lys_module *mod = ly_ctx_get_module_implemented(g_ctx, "m");
+
+                /* (the data of module m only: the internal modules have mandatory state data) */
+                if (!mod || lyd_parse_data_mem(g_ctx, txt, LYD_XML, LYD_PARSE_STRICT | LYD_PARSE_ONLY, 0, &tree) ||
+                        lyd_new_implicit_module(&tree, mod, 0, NULL)) {
+                    printf("PARSEERR");
+                } else {
+                    LY_LIST_FOR(tree, root) {
+                        LYD_TREE_DFS_BEGIN(root, node) {
+                            struct lysc_must *musts = node->schema ? lysc_node_musts(node->schema) : NULL;
+                            LY_ARRAY_COUNT_TYPE u;
+
+                            LY_ARRAY_FOR(musts, u) {
+                                ly_bool res = 0;
+
+                                ++nm;
+                                if (lyd_eval_xpath3(node, node->schema->module, lyxp_get_expr(musts[u].cond),
+                                        LY_VALUE_SCHEMA_RESOLVED, musts[u].prefixes, NULL, &res)) {
+                                    ++nerr;
+                                } else if (!res) {
+                                    ++nfalse;
+                                }
+                            }
+                            LYD_TREE_DFS_END(root, node);
+                        }
+                    }
+                    uint32_t lo = LY_LOLOG | LY_LOSTORE_LAST, *prev_lo = ly_temp_log_options(&lo);
+                    LY_ERR vr = lyd_validate_module(&tree, mod, 0, NULL);
+                    const struct ly_err_item *ei = vr ? ly_err_last(g_ctx) : NULL;
+
+                    ly_temp_log_options(prev_lo);
+
+                    /* a refusal that is not about a must statement is reported as such */
+                    printf("M:%u:%u:%u:%d%s", nm, nfalse, nerr, vr ? 1 : 0,
+                            (vr && !(ei && ei->msg && strstr(ei->msg, "Must condition"))) ? ":OTHER" : "");
+                    if (vr && getenv("T_XPATH_DEBUG")) {
+                        fprintf(stderr, "validation %d: %s\n", (int)vr, ei && ei->msg ? ei->msg : "(no message)");
+                    }
+                }
+                lyd_free_all(tree);
+                free(txt);
+            }
         } else if (!strcmp(comp, "xpk") && (c.nf >= 3) && !strcmp(c.f[1], "s2n")) {
             char *s = vunhex(c.f[2], NULL);
 
